@@ -142,6 +142,7 @@ type Result struct {
 	Stdout, Stderr string
 	Exit           int
 	TimedOut       bool
+	CPU            time.Duration // user+system time of the process (also when it was killed)
 	Dur            time.Duration
 }
 
@@ -150,6 +151,7 @@ type Cmd struct {
 	Env     []string // extra KEY=VAL
 	Timeout time.Duration
 	Stdin   string
+	DumpOnTimeout bool
 	Name    string
 	Args    []string
 }
@@ -166,6 +168,11 @@ func (c Cmd) Run() Result {
 	cmd.Env = append(os.Environ(), c.Env...)
 	cmd.SysProcAttr = &syscall.SysProcAttr{Setpgid: true}
 	cmd.Cancel = func() error { return syscall.Kill(-cmd.Process.Pid, syscall.SIGKILL) }
+	if c.DumpOnTimeout {
+		// a Go program prints its goroutine stacks on SIGQUIT and exits
+		cmd.Cancel = func() error { return syscall.Kill(cmd.Process.Pid, syscall.SIGQUIT) }
+		cmd.WaitDelay = 20 * time.Second
+	}
 	var so, se bytes.Buffer
 	cmd.Stdout, cmd.Stderr = &so, &se
 	if c.Stdin != "" {
@@ -174,6 +181,9 @@ func (c Cmd) Run() Result {
 	t0 := time.Now()
 	err := cmd.Run()
 	r := Result{Stdout: so.String(), Stderr: se.String(), Dur: time.Since(t0)}
+	if cmd.ProcessState != nil {
+		r.CPU = cmd.ProcessState.UserTime() + cmd.ProcessState.SystemTime()
+	}
 	if ctx.Err() != nil {
 		r.TimedOut = true
 		r.Exit = -1
